@@ -116,6 +116,12 @@ fn format_extraction<TCompilationProfile: CompilationProfile>(
         let new_line_behavior = token.item.line_behavior;
         let indent_change = token.item.indent_change;
 
+        if !new_line_behavior.should_keep() {
+            // A removed token (i.e. a comma) takes no part in the layout. Otherwise, the
+            // result depends on whether the comma was present, and formatting is not idempotent.
+            continue;
+        }
+
         if let IndentChange::Dedent = indent_change {
             indent -= 1;
         }
